@@ -21,11 +21,36 @@ LEVELS = ["global", "tparam", "tlocal", "fparam", "flocal", "block", "iter", "qu
 UB = {lv: 10 + i for i, lv in enumerate(LEVELS)}      # upper bound identifies the declaration
 
 
-def model(D, late_global=False):
-    """D: set of levels at which `v` is declared.  All use sites are present in every model."""
+# Erroneous declarations that open scopes of their own in which `v` is declared (upper bounds 31..): the parse goes on after
+# each of them (error recovery), and none of their declarations may become visible to any later use.
+DISTURBANCES = {
+    "missing-return": "int[0,99] bad(int[0,31] v) { }\n",
+    "unknown-identifier-in-body": "int[0,99] bad(int[0,31] v) { return nosuch_name; }\n",
+    "syntax-error-in-statement": "void bad(int[0,31] v) { v = ; }\n",
+    "syntax-error-in-nested-block": "void bad(int[0,31] v) { { int[0,32] v; v = ( ; } }\n",
+    "duplicate-definition-in-body": "void bad(int[0,31] v) { int[0,32] v; }\n",
+    "syntax-error-in-quantifier": "int[0,99] bad(int[0,31] q) { return (forall (v : int[0,33]) v > ) ? 1 : 0; }\n",
+    "syntax-error-in-iteration": "void bad(int[0,31] q) { for (v : int[0,34]) { q = ; } }\n",
+    "syntax-error-in-parameters": "void bad(int[0,31] v, ) { }\n",
+    "bad-struct-field": "typedef struct { int[0,35] v; int[0,1] v; } bad_t;\n",
+    "return-in-void": "void bad(int[0,31] v) { return v; }\n",
+    "unterminated-initialiser": "int[0,31] bad[2] = { 1, ;\n",
+    "call-of-unknown-function": "void bad(int[0,31] v) { nosuch_fn(v); }\n",
+}
+# disturbances that are syntactically well formed: nothing after them may be skipped, every later declaration must be in the document
+SEMANTIC_ONLY = {"missing-return", "unknown-identifier-in-body", "duplicate-definition-in-body", "bad-struct-field", "return-in-void",
+                 "call-of-unknown-function"}
+PLACES = ["global-before-uses", "global-after-function", "template-local"]
+
+
+def model(D, late_global=False, disturb=None):
+    """D: set of levels at which `v` is declared.  All use sites are present in every model.
+    disturb: (kind, place) - an erroneous declaration inserted before use sites."""
     d = lambda lv, text: text if lv in D else ""       # noqa: E731
+    dist = lambda place: DISTURBANCES[disturb[0]] if disturb and disturb[1] == place else ""    # noqa: E731
     g = "int[0,99] u0 = v;\n"                                                    # use before the global declaration
     g += d("global", "int[0,%d] v;\n" % UB["global"])
+    g += dist("global-before-uses")
     g += "int[0,99] u1 = v;\nchan c[20];\n"
     g += "int[0,99] fsite(int[0,99] dmy%s) {\n" % d("fparam", ", int[0,%d] v" % UB["fparam"])
     g += " int[0,99] a0 = v;\n"                                                  # f_before_local
@@ -40,7 +65,8 @@ def model(D, late_global=False):
     g += " r = (forall (%s : int[0,%d]) v >= 0) ? 1 : 0;\n" % ("v" if "quant" in D else "w2", UB["quant"])   # quant_inside
     g += " r = v;\n"                                                             # quant_after
     g += " return r;\n}\n"
-    tdecl = "int[0,99] t0 = v;\n"                                                # t_before_local
+    g += dist("global-after-function")
+    tdecl = dist("template-local") + "int[0,99] t0 = v;\n"                                                # t_before_local
     tdecl += d("tlocal", "int[0,%d] v;\n" % UB["tlocal"])
     tdecl += "int[0,99] t1 = v;\n"                                               # t_after_local
     tdecl += "int[0,99] lfun() { return v; }\n"                                   # tfun
@@ -276,6 +302,71 @@ def run_shard(arg):
     return part.result()
 
 
+def run_disturbed(arg):
+    """the same use sites after an erroneous declaration that opened (and must have closed) scopes declaring `v`"""
+    i, n, t = arg
+    part = engine.Part()
+    w = engine.worker("fast")
+    cases = []
+    Ds = list(subsets() if t == "thorough" else quick_subsets())
+    if t != "thorough":
+        Ds = [D for D in Ds if len(D) <= 2]
+    for kind in DISTURBANCES:
+        for place in PLACES:
+            for D in Ds:
+                cases.append((kind, place, D))
+    cases = [c for k, c in enumerate(cases) if k % n == i]
+    docs = [model(D, disturb=(kind, place)) for kind, place, D in cases]
+    res = X.run_docs(w, docs, want=["dump"], batch=20)
+    for (kind, place, D), doc, r in zip(cases, docs, res):
+        key = "+".join(sorted(D)) or "none"
+        rp = {"op": "xml", "buf": doc, "want": ["dump"], "declared_at": sorted(D), "disturbance": kind, "place": place}
+        part.count()
+        if engine.check_crash(part, PID, r, "%s/%s/%s" % (kind, place, key), rp):
+            continue
+        if r.get("exc") is not None or "dump" not in r:
+            part.violation("exception:" + str(r.get("exc")), "disturbed model %s/%s: %s" % (kind, place, r.get("exc")), rp)
+            continue
+        if not r.get("errors"):
+            raise RuntimeError("disturbance %s at %s is not diagnosed - generator bug" % (kind, place))
+        try:
+            O = observe(r["dump"])
+        except (IndexError, KeyError):
+            part.violation("structure-lost:%s:%s" % (kind, place), "after the erroneous declaration %s (%s) the document lacks templates/functions "
+                           "that follow it" % (kind, place), rp)
+            continue
+        # error recovery may swallow declarations that follow the erroneous one in the same block (legitimately: the
+        # text up to the recovery point is skipped); the reference is computed from the declarations that are in the document
+        D_eff = set(D)
+        dump = r["dump"]
+        if "global" in D and not any(v["name"] == "v" for v in dump["globals"]["vars"]):
+            D_eff.discard("global")
+        if "tlocal" in D and not any(v["name"] == "v" for v in dump["templates"][0]["decl"]["vars"]):
+            D_eff.discard("tlocal")
+        if D_eff != set(D):
+            part.outcome("after-error:declaration-swallowed-by-recovery")
+        R = reference(D_eff)
+        for site, exp in R.items():
+            part.count()
+            got = bound_level(O.get(site))
+            part.nontrivial_case("%s:%s:%s:%s" % (kind, place, key, site))
+            if got == exp:
+                part.outcome("after-error:bound-as-scoped" if exp else "after-error:reported-unknown")
+            elif O.get(site) is None and kind not in SEMANTIC_ONLY:
+                part.outcome("after-error:site-lost")       # the declaration carrying the site was swallowed by error recovery
+            elif O.get(site) is None:
+                part.outcome("after-error:declaration-misplaced")
+                part.violation("declaration-lost-after-error:%s:%s:%s" % (kind, place, site),
+                               "after the (syntactically well-formed) erroneous declaration `%s` (%s) the declaration carrying use site %s "
+                               "is not where it was declared in the document" % (DISTURBANCES[kind].strip(), place, site), rp)
+            else:
+                part.outcome("after-error:misbound")
+                part.violation("misbound-after-error:%s:%s:%s:got-%s" % (kind, place, site, got),
+                               "after the erroneous declaration `%s` (%s), with `v` declared at {%s}, the use at site %s is bound to %s; "
+                               "lexical scoping says %s" % (DISTURBANCES[kind].strip(), place, key, site, got, exp), rp)
+    return part.result()
+
+
 def run_late(rep):
     """a declaration that textually follows the use (same scope, later line) must not capture it"""
     part = engine.Part()
@@ -307,9 +398,14 @@ def main():
                         "parameter, function local, nested block, iteration binder, quantifier binder, select binder; pairs that "
                         "share a frame excluded) x 23 use sites per model (before/after each declaration, inside/outside each scope, "
                         "labels of an edge with and without the select binder, invariant, another template, system section) + 4 "
-                        "queries (v, P.v, P.w with argument substitution, T2.v); reference lexical resolver R3." % n_sub)
+                        "queries (v, P.v, P.w with argument substitution, T2.v); reference lexical resolver R3. Error-recovery histories: the same "
+                        "use sites after each of %d erroneous declarations (missing return, unknown names, syntax errors inside "
+                        "statements / nested blocks / quantifiers / iterations / parameter lists / initialisers, duplicates) that declare "
+                        "the name in scopes of their own, placed at %d positions." % (n_sub, len(DISTURBANCES), len(PLACES)))
     n = engine.ncpu()
     for res in engine.pmap(run_shard, [(i, n, t) for i in range(n)]):
+        rep.merge(res)
+    for res in engine.pmap(run_disturbed, [(i, n, t) for i in range(n)]):
         rep.merge(res)
     run_late(rep)
     rep.assumptions = ["the declaration a use is bound to is identified by the upper bound of the symbol's declared range",
